@@ -6,7 +6,10 @@
 mod ctx;
 mod lib_api;
 mod lifecycle;
+mod mutate;
+mod props_verify;
 mod props_life;
+mod props_pure;
 mod refmodel;
 
 use ctx::{Ctx, Tier};
@@ -21,9 +24,14 @@ type Runner = fn(&Ctx) -> (&'static str, Map<String, Value>);
 fn runner(id: &str) -> Option<Runner> {
     Some(match id {
         "C01" => props_life::run_c01,
+        "C02" => props_verify::run_c02,
         "C03" => props_life::run_c03,
         "C04" => props_life::run_c04,
+        "C05" => props_pure::run_c05,
+        "C06" => props_verify::run_c06,
         "C07" => props_life::run_c07,
+        "C12" => props_pure::run_c12,
+        "C13" => props_pure::run_c13,
         _ => return None,
     })
 }
@@ -31,6 +39,9 @@ fn runner(id: &str) -> Option<Runner> {
 pub fn replay_case(case: &Value) -> Result<Vec<ctx::Viol>, String> {
     match case["engine"].as_str().unwrap_or("") {
         "life" => lifecycle::replay(case),
+        "verify" => mutate::replay(case),
+        "c12" => props_pure::c12_replay(case),
+        "arith" => props_pure::arith_replay(case),
         e => Err(format!("unknown engine {}", e)),
     }
 }
